@@ -21,7 +21,7 @@ import os
 import struct
 
 from vlib import refrecords as R
-from vlib.core import HarnessError, Outcome
+from vlib.core import LibraryFault, HarnessError, Outcome
 
 from . import _rec_common as rc
 
@@ -641,7 +641,7 @@ def _ref_batch(b, magic, t0, builders):
                               b.get("seq", -1), BIG_BATCH)
             for i, r in enumerate(recs):
                 if bd.append(i, r["ts"], r["key"], r["value"], list(r["headers"])) is None:
-                    raise HarnessError("unbounded builder refused an append")
+                    raise LibraryFault("limit_protocol", im.name + ".v2.unbounded_builder_refused_append", {"index": i, "records": len(recs)})
             data = bytes(bd.build())
             return recs, _entries_from_built_v2(
                 "builder:" + im.name, data, recs, bool(b.get("tx")), b.get("pid", -1), b.get("epoch", -1),
@@ -649,7 +649,7 @@ def _ref_batch(b, magic, t0, builders):
         bd = im.LegacyBuilder(magic, codec, BIG_BATCH)
         for i, r in enumerate(recs):
             if bd.append(i, r["ts"], r["key"], r["value"]) is None:
-                raise HarnessError("unbounded builder refused an append")
+                raise LibraryFault("limit_protocol", im.name + ".v%d.unbounded_builder_refused_append" % magic, {"index": i, "records": len(recs)})
             r["msg"] = R.enc_legacy_message(magic, i, r["key"], r["value"], r["ts"] if magic else None, 0)
             if magic == 0:
                 r["ts"] = None
